@@ -2,6 +2,7 @@
 Helper lemmas about `Model/CoreEval.lean` used by `Props/C01.lean`.
 -/
 import KotoVerif.Model.CoreEval
+import KotoVerif.Model.NumOps
 
 namespace KotoVerif.C01
 open KotoVerif KotoVerif.Core
@@ -73,7 +74,7 @@ theorem eval_for (F : FloatOps) (n x : Nat) (it b : Expr) (s s₁ : St) (vi : Va
   rw [eval]; simp only [hi, seq, hitems]
 
 theorem evalFor_nil (F : FloatOps) (n x : Nat) (b : Expr) (acc : Val) (s : St) :
-    evalFor F (n + 1) x [] b acc s = (.ok acc, s) := by
+    evalFor F (n + 1) x [] b acc s = (.ok acc, s.set x .null) := by
   simp [evalFor]
 
 theorem eval_assign (F : FloatOps) (n x : Nat) (e : Expr) (s : St) :
@@ -305,9 +306,46 @@ theorem out_extends (F : FloatOps) : ∀ n,
         | exact ext_refl _ _ | apply ihE | apply ihW | apply ext_seq | apply ext_loopStep | intro _ _ | split)
     · intro x items b acc s
       cases items with
-      | nil => simp only [evalFor]; exact ext_refl _ _
+      | nil => simp only [evalFor]; exact ext_set _ _ _ _
       | cons item rest =>
         simp only [evalFor]
         exact ext_of_set (ext_loopStep (ihE _ _) (fun v s' => ihF _ _ _ _ _))
+
+/-! ### integer power -/
+
+/-- square-and-multiply on `Int64` computes the mathematical power modulo 2⁶⁴ -/
+theorem wpow_spec : ∀ (fuel : Nat) (x : Int) (e : Nat), e < 2 ^ fuel →
+    Num.wpow fuel (Int64.ofInt x) e = Int64.ofInt (x ^ e) := by
+  intro fuel
+  induction fuel with
+  | zero =>
+    intro x e he
+    have : e = 0 := by simpa using he
+    subst this
+    simp [Num.wpow]
+  | succ fuel ih =>
+    intro x e he
+    unfold Num.wpow
+    by_cases h0 : e = 0
+    · subst h0; simp
+    · simp only [h0, if_false]
+      have hdiv : e / 2 < 2 ^ fuel := by
+        have : 2 ^ (fuel + 1) = 2 * 2 ^ fuel := by rw [Nat.pow_succ]; omega
+        omega
+      have hsq : Int64.ofInt x * Int64.ofInt x = Int64.ofInt (x * x) := (Int64.ofInt_mul x x).symm
+      rw [hsq, ih (x * x) (e / 2) hdiv]
+      have hpow : (x * x) ^ (e / 2) = x ^ (2 * (e / 2)) := by
+        rw [Int.pow_mul]; congr 1; simp [Int.pow_succ]
+      by_cases h1 : e % 2 = 1
+      · simp only [h1, if_true]
+        rw [← Int64.ofInt_mul, hpow]
+        congr 1
+        have : e = 2 * (e / 2) + 1 := by omega
+        conv => rhs; rw [this, Int.pow_succ]
+        rw [Int.mul_comm]
+      · simp only [h1, if_false]
+        rw [hpow]
+        have : e = 2 * (e / 2) := by omega
+        rw [← this]
 
 end KotoVerif.C01
